@@ -51,7 +51,10 @@ MANIFEST = {
             "C01's reader model delivers equals the index of the whole file: a cut after a newline and before '>' is a record "
             "boundary), fast_path_same (the vectorised path's traced arithmetic equals the scalar path's for all integers), fai_roundtrip / genome_sizes / "
             "fai_file (the written .fai read back by read_index and by Genome.from_file gives the built rows / the true lengths), "
-            "traced_kernel / traced_bytes_to_read / fetch_uses_traced (the model's seek position, read length, deleted-newline count, "
+            "fetch_interval_checked / index_rows_no_final_newline / fetch_contig_no_final_newline (FASTA without its final newline, NumPy's "
+            "bounds check on np.delete modelled; refutation of the pre-repair rule), lookup_finds, wrap_filter / chunks_widths / "
+            "delete_eq_filter / lines_join / firstWord_spec (model definitions pinned by standard list notions), "
+            "index_chunk_size_independent, traced_kernel / traced_bytes_to_read / fetch_uses_traced (the model's seek position, read length, deleted-newline count, "
             "start column, row count and bytes-to-read ARE the expressions symbolically traced from the running "
             "get_interval_sequences / __getitem__ on every run into Gen/C17.lean; the row length the code claims is b-a). "
             "Correspondence: the real open_indexed / get_interval_sequences (both code paths) / __getitem__ / get_contig_lengths / "
@@ -629,6 +632,13 @@ def _impl(c):
             lengths = [[k, int(v)] for k, v in f.get_contig_lengths().items()]
             if keys != [k for k, _ in lengths]:
                 return {"err": "keys-differ", "keys": keys}
+            if repr(f) != "Indexed Fasta File with chromosome sizes: " + repr({k: v for k, v in lengths}):
+                return {"err": "repr-differs", "repr": repr(f)}
+            # a GenomicSequence made directly from the indexed file takes its chromosome sizes from it
+            from bionumpy.genomic_data.genomic_sequence import GenomicSequence
+            gsz = GenomicSequence.from_indexed_fasta(f).genome_context.chrom_sizes
+            if [[k, int(v)] for k, v in gsz.items()] != lengths and not any("_" in k for k in keys):
+                return {"err": "genome-context-sizes-differ", "sizes": [[k, int(v)] for k, v in gsz.items()]}
             return {"rows": rows, "lengths": lengths, "fai": open(p + ".fai").read()}
         if op == "session":
             from bionumpy.encodings.string_encodings import StringEncoding
